@@ -43,7 +43,7 @@ let show_acc (a : access) =
 let check name ext balign (cap : int -> int) accs : issue list =
   (* the verdict is the extracted checker proved sound in C06.v (check_C06_sound: all_ok = true ->
      every access in bounds and aligned); first_bad only names the offending access *)
-  if all_ok ext balign accs then [] else
+  if check_C06 ext balign accs then [] else
   match first_bad ext balign accs with
   | None -> [ModelBad (name ^ ":all_ok-false-without-bad-access", true)]
   | Some a ->
@@ -53,6 +53,78 @@ let check name ext balign (cap : int -> int) accs : issue list =
       [ModelBad (name ^ ":" ^ show_acc a, past)]
 
 let dense_stride es c = int_of_nat (stride (nat_of_int es) (nat_of_int c) (nat_of_int 32))
+
+(* ---------- the history model (FpHistory.hstep, about which C06_histories_partial and
+   C06_model_passes_partial speak) replayed on the observed pre-state of every op ----------
+   pre-state = the values the harness read through the public accessors before the call; the op is
+   the model's hop for the record; the post-state of hstep must be what the harness observed after the
+   call, its events must pass check_C06, and "no event" must coincide with "no kernel entered". *)
+let arm_of = function "avx2" -> AAvx2 | "sse2" -> ASse2 | _ -> AGeneric
+
+let history_step name (gs : string -> string) (gi : string -> int) (outs : string list) (panicked : bool) : issue list =
+  let oi k = try int_of_string (List.nth outs k) with _ -> -1 in
+  let unk = z (-7) in   (* sentinel: a field hstep must not leave untouched when the op succeeds *)
+  let mk ?(e = unk) ?(l = unk) ?(sr = unk) ?(w = unk) ?(m = unk) ?(fr = unk) ?(fi = unk) ?(ur = unk) () =
+    { hE = e; hL = l; hSR = sr; hwrap = w; hM = m; hFR = fr; hFI = fi; hUR = ur } in
+  let k = if gs "K" = "" then 5 else gi "K" in
+  let pstF = z (dense_stride 4 k) and pstU = z (dense_stride 1 k) in
+  let step pre op = hstep (z k) pstF pstU pre op in
+  let bad what = [Guard (Printf.sprintf "history-model:%s:%s" name what)] in
+  let events_ok evs = List.for_all (fun e -> check_C06 e.ev_ext e.ev_al e.ev_accs) evs in
+  match name with
+  | "stripe" when not panicked ->
+      let pre = mk ~e:(z (gi "L")) () in
+      let a = if gs "pl" = "a" || (gs "pl" = "d" && gs "arm" = "avx2") then AAvx2 else AGeneric in
+      let (post, evs) = step pre (HStripe a) in
+      if iz post.hSR <> oi 0 || iz post.hwrap <> oi 2 || iz post.hL <> gi "L" then
+        bad (Printf.sprintf "rows,wrap=%d,%d-model=%d,%d" (oi 0) (oi 2) (iz post.hSR) (iz post.hwrap))
+      else if not (events_ok evs) then bad "event-fails-check_C06" else []
+  | "sample" when not panicked ->
+      let (post, evs) = step (mk ()) (HSample (z (gi "L"))) in
+      if iz post.hSR <> oi 0 || iz post.hwrap <> 0 then bad (Printf.sprintf "rows=%d-model=%d" (oi 0) (iz post.hSR))
+      else if not (events_ok evs) then bad "event-fails-check_C06" else []
+  | "cfg" when not panicked ->
+      let pre = mk ~sr:(z (gi "SR")) ~w:(z (gi "wrap")) () in
+      let (post, _) = step pre (HConfigure (z (gi "m"))) in
+      if iz post.hSR <> oi 0 || iz post.hwrap <> oi 1 then
+        bad (Printf.sprintf "rows,wrap=%d,%d-model=%d,%d" (oi 0) (oi 1) (iz post.hSR) (iz post.hwrap)) else []
+  | ("score" | "uscore") when List.hd outs <> "U" && (gs "C" = "" || gi "C" = 32) ->
+      let pre = mk ~l:(z (gi "L")) ~sr:(z (gi "SR")) ~w:(z (gi "wrap")) ~m:(z (gi "M")) () in
+      let f32 = gi "es" = 4 in
+      let a = arm_of (gs "arm") in
+      let op = if f32 then HScoreF32 (a, z (gi "a"), z (gi "b")) else HScoreU8 (a, z (gi "a"), z (gi "b")) in
+      let (post, evs) = step pre op in
+      let rows_model = iz (if f32 then post.hFR else post.hUR) in
+      if panicked then (if rows_model <> -7 then bad "implementation-panicked-model-did-not" else [])
+      else if rows_model = -7 then bad "model-panics-implementation-did-not"
+      else if rows_model <> oi 0 then bad (Printf.sprintf "rows=%d-model=%d" (oi 0) rows_model)
+      else if not (events_ok evs) then bad "event-fails-check_C06"
+      else []
+  | ("enc" | "encuse") ->
+      let a = match gs "pl", gs "arm" with
+        | "a", _ -> AAvx2 | "s", _ -> ASse2 | "d", "avx2" -> AAvx2 | _ -> AGeneric in
+      let (post, evs) = step (mk ()) (HEncode (a, z (gi "L"), z (gi "Ld"))) in
+      let entered = iz post.hE <> -7 in
+      if panicked = entered then bad (Printf.sprintf "panicked=%b-model-entered=%b" panicked entered)
+      else if not (events_ok evs) then bad "event-fails-check_C06" else []
+  | ("fmax" | "umax") when gs "op" <> "thr" && (gs "C" = "" || gi "C" = 32) ->
+      let f32 = gi "es" = 4 in
+      let pre = if f32 then mk ~fr:(z (gi "rows")) ~fi:(z (gi "maxidx")) () else mk ~ur:(z (gi "rows")) () in
+      (* the dispatcher's Sse2 arm of `max` is the generic code; Pipeline<Sse2>::max is argmax_sse2 *)
+      let a = match gs "arm", gs "op", gs "pl" with
+        | "sse2", "max", pl when pl <> "s" -> AGeneric
+        | arm, _, _ -> arm_of arm in
+      let op = match f32, gs "op" with
+        | true, "argmax" -> HArgmaxF32 a | true, _ -> HMaxF32 a
+        | false, "argmax" -> HArgmaxU8 a | false, _ -> HMaxU8 a in
+      let (_, evs) = step pre op in
+      let simd = (match a, f32 with AAvx2, _ -> true | ASse2, true -> true | _ -> false) in
+      (* a SIMD arm enters its kernel exactly when the implementation returns Some (and does not panic) *)
+      if not (events_ok evs) then bad "event-fails-check_C06"
+      else if simd && not panicked && (evs <> []) <> (List.hd outs = "1") then
+        bad (Printf.sprintf "kernel-entered=%b-implementation-returned-%s" (evs <> []) (List.hd outs))
+      else []
+  | _ -> []
 
 let handle_record (r : string) : issue list =
   match String.split_on_char '|' r with
@@ -84,6 +156,8 @@ let handle_record (r : string) : issue list =
               Some accs
             end
         | _ -> add [Guard (name ^ ":model-error")]; None in
+      (try add (history_step name gs gi outs panicked)
+       with e -> add [Guard ("history-model:exception:" ^ Printexc.to_string e)]);
       (match name with
        | "enc" | "encuse" ->
            let l = gi "L" and ld = gi "Ld" in
@@ -267,7 +341,7 @@ let srcfp_line (line : string) : string =
     | x :: a', y :: b' -> if x = y then first_diff a' b'
                           else if compare x y < 0 then Some ("model-only:" ^ show x) else Some ("source-only:" ^ show y) in
   let src_accs = List.map untup src in
-  if not (all_ok ext balign src_accs) then
+  if not (check_C06 ext balign src_accs) then
     Printf.sprintf "%s DIFF srcfp:%s:source-derived-access-fails-the-checker:%s" id kernel
       (match first_bad ext balign src_accs with Some a -> show_acc a | None -> "?")
   else match first_diff m sset with
@@ -315,6 +389,10 @@ let () =
         if starts "ASAN" asan || starts "CRASH" asan || starts "CRASH" dbg || starts "ASAN" rel || starts "CRASH" rel then
           Printf.printf "%s PROPFAIL memory-error asan=%s rel=%s dbg=%s %s%s\n" id asan rel dbg model_txt
             (match guards with [] -> "" | g :: _ -> " guard=" ^ g)
+        else if starts "NOTRUN" asan || starts "NOTRUN" dbg || starts "NOTRUN" rel then
+          Printf.printf "%s DIFF not-run-after-repeated-hangs-of-the-implementation\n" id
+        else if starts "HANG" asan || starts "HANG" dbg || starts "HANG" rel then
+          Printf.printf "%s DIFF implementation-did-not-terminate asan=%s rel=%s dbg=%s\n" id asan rel dbg
         else if invariants <> [] then
           Printf.printf "%s PROPFAIL %s\n" id (List.hd invariants)
         else if asan = "NOASAN" || rel = "NOASAN" then
